@@ -67,8 +67,17 @@ ASSUMPTIONS = [
     "neither fire nor fail on them, nor fire when the reply arrives afterwards; for filesystem services the harness keeps <dir>/hostname "
     "out of sight during that window (Tor writes it while it processes the SETCONF it has not answered yet)",
     "invalid combinations: refusal = an exception from the constructor / serverFromString, or a failed listen(); in either case no "
-    "listenTCP call and no ADD_ONION/SETCONF/RESETCONF line; a control connection attempt or configuration *reads* started by "
-    "system_tor()/Tor.get_config() before the constructor's checks run are counted, not judged",
+    "listenTCP call, no ADD_ONION/SETCONF/RESETCONF line, and - when the refusal is an exception from serverFromString - no connectTCP/"
+    "connectUNIX/spawnProcess call on the reactor before it (system_tor() opens the control connection, global_tor() without an existing "
+    "global Tor launches one: for that route only the lookup of the tor binary is stubbed, the fake reactor records the spawn); "
+    "configuration *reads* on an existing connection (Tor.get_config()) are not 'starting' anything",
+    "a TorConfig made by the caller (routes ctor-lazy: protocol ready, config bootstrapping; ctor-raw: protocol not even connected when "
+    "listen() is called) has its post_bootstrap tapped by the harness (result passed on untouched): when it fails before listen() fired, "
+    "listen() must fail with that very error (same exception, or same type and text) and leave nothing open; faults there: Tor hangs up at / "
+    "after every line, answers 552 to every single line (connection stays up), refuses the password",
+    "filesystem cells 'symlink': hidden_service_dir is a symlink to a directory for which the config already holds a service (Tor's "
+    "configuration had it when the config was read, or an earlier endpoint object created it): only 'fails at most once, does not hang, no "
+    "listener left open, stopListening closes' is judged there - what listen() does with an already configured directory is outside the quantifier",
     "option values of the wrong type handed to the constructor (e.g. public_port='80') are outside what __init__ declares; not generated. "
     "version=4 through the constructor is refused only when the service is created: judged as a failing run (no leak), not as a refusal before start",
     "on the port of every successful listen() one IListeningPort history is run (stop | stop,stop | stop,start,stop | stop,start,stop,stop | "
@@ -80,7 +89,7 @@ ASSUMPTIONS = [
     "parser object that plugin file creates (txtorcon.TCPHiddenServiceEndpointParser()); the string parsing itself is Twisted's",
     "routes NOT covered: the first global_tor() call and private_tor() launch a Tor process (txtorcon.launch needs a tor binary); "
     "'onion:' strings without controlPort are driven only against an already existing global Tor (seeded through get_global_tor_instance(_tor_launcher=...))",
-    "a second listen() on the same endpoint and directories already configured in Tor are outside the quantifier; not generated",
+    "a second listen() on the same endpoint object is outside the quantifier; not generated",
 ]
 TRUSTED_BASE = ["vf.fakereactor.FakeReactor (tracked listening ports, harness-resolved connects)",
                 "vf.faketor.oniontor.OnionTor (reference Tor, self-tested)", "vf.refs.addonion, vf.refs.kvline (decoders, self-tested)",
@@ -107,7 +116,8 @@ ANCHORS = [
 FLOORS = {
     "quick": {"evaluations": 1400, "listen_calls": 1400, "listeners_checked_loopback": 1200, "mappings_compared": 800,
               "not_fired_checks": 4500, "not_fired_nor_failed_on_foreign_events_checks": 500, "foreign_window_runs": 120, "gethost_compared": 180, "stop_checked": 180, "stops_after_restart_checked": 90, "leak_checks_after_failure": 1200,
-              "failure_errors_compared": 1000, "refusals_before_start_checked": 10, "fault:close-on-line": 300,
+              "failure_errors_compared": 1000, "refusals_before_start_checked": 10, "reactor_watched_for_starts_before_refusal": 14, "config_bootstrap_failures_compared": 150,
+              "preconfigured_directory_runs": 15, "fault:reject-line": 120, "route:ctor-raw": 100, "fault:close-on-line": 300,
               "fault:close-after-reply": 300, "fault:reject": 120, "fault:uploads-failed": 180, "fault:bind": 90, "fault:config": 40,
               "route:ctor": 200, "route:tor": 140, "route:str-system": 80, "route:str-global": 45,
               "reach:txtorcon.endpoints:TCPHiddenServiceEndpoint.listen": 1400,
@@ -116,7 +126,8 @@ FLOORS = {
               "reach:txtorcon.controller:connect": 150},
     "thorough": {"evaluations": 4500, "listen_calls": 4500, "listeners_checked_loopback": 3500, "mappings_compared": 2500,
                  "not_fired_checks": 14000, "not_fired_nor_failed_on_foreign_events_checks": 900, "foreign_window_runs": 200, "gethost_compared": 500, "stop_checked": 500, "stops_after_restart_checked": 250, "leak_checks_after_failure": 3500,
-                 "failure_errors_compared": 3000, "refusals_before_start_checked": 10, "fault:close-on-line": 1200,
+                 "failure_errors_compared": 3000, "refusals_before_start_checked": 10, "reactor_watched_for_starts_before_refusal": 14, "config_bootstrap_failures_compared": 400,
+                 "preconfigured_directory_runs": 15, "fault:reject-line": 400, "route:ctor-raw": 400, "fault:close-on-line": 1200,
                  "fault:close-after-reply": 1200, "fault:reject": 300, "fault:uploads-failed": 450, "fault:bind": 250, "fault:config": 100,
                  "random_cases": 4000,
                  "route:ctor": 400, "route:tor": 300, "route:str-system": 300, "route:str-global": 100,
@@ -126,8 +137,12 @@ FLOORS = {
                  "reach:txtorcon.controller:connect": 500},
 }
 
-ROUTES = ("ctor", "ctor-deferred", "ctor-lazy", "tor", "tor-lazy", "str-system", "str-system-unix", "str-global", "str-global-lazy")
-LAZY = ("ctor-lazy", "tor-lazy", "str-system", "str-system-unix", "str-global-lazy")
+ROUTES = ("ctor", "ctor-deferred", "ctor-lazy", "tor", "tor-lazy", "str-system", "str-system-unix", "str-global", "str-global-lazy",
+          "ctor-raw")
+# ctor-lazy: TorConfig(protocol) still bootstrapping at listen(); ctor-raw: TorConfig around a protocol that is not even connected /
+# authenticated when listen() is called (the harness owns these TorConfig objects and taps their post_bootstrap)
+LAZY = ("ctor-lazy", "tor-lazy", "str-system", "str-system-unix", "str-global-lazy", "ctor-raw")
+OWN_CONFIG = ("ctor-lazy", "ctor-raw")
 AUTH = {"none": None, "b1": ("basic", ["alice"]), "b2": ("basic", ["alice", "bob"]),
         "b2t": ("basic", ["alice", ("bob", "tok")]), "s1": ("stealth", ["alice"]), "s2": ("stealth", ["alice", "bob"])}
 PUBLIC_PORTS = (80, 443, 1, 65535, 8080, 9735)
@@ -166,15 +181,27 @@ def fs_cells():
                 for gr in (False, True):
                     yield {"eph": False, "auth": auth, "version": version, "dir": d, "gr": gr}
     yield {"eph": False, "auth": "none", "version": 4, "dir": "missing", "gr": False}       # Tor refuses the version
+    # the directory is given through a symlink and a service for the same directory is already in the config
+    # (loaded from Tor's configuration, or created by an earlier endpoint object)
+    for pre in ("tor-config", "first-endpoint"):
+        for auth in ("none", "b1"):
+            for version in (2, 3):
+                if auth == "b1" and version == 3:
+                    continue            # Tor itself refuses authorised clients on version 3
+                yield {"eph": False, "auth": auth, "version": version, "dir": "symlink", "pre": pre, "gr": False}
 
 
 def supports(route, cell):
     if route.startswith("ctor"):
-        return True
+        return not (cell.get("pre") == "first-endpoint" and route not in ("ctor", "ctor-deferred"))
     if route.startswith("tor"):
         if cell["eph"]:
             return not (cell["auth"] != "none" and cell["hop"] != "no")
+        if cell.get("pre") == "first-endpoint" and route != "tor":
+            return False
         return cell["dir"] != "implicit"
+    if cell.get("pre"):
+        return False            # the string parser resolves symlinks itself
     # endpoint strings: no auth, no group-readable; a directory makes it a filesystem service; the parser itself
     # refuses versions other than 2 and 3 (see invalid_cases)
     if cell["auth"] != "none" or cell["version"] == 4:
@@ -210,6 +237,8 @@ def base_faults(route, cell):
         f += [["config", "fails-before-listen"], ["config", "fails-after-listen"]]
     if route in ("str-system", "str-system-unix"):
         f += [["config", "connection-refused"]]
+    if route == "ctor-raw":
+        f += [["config", "auth-fails"]]
     word = "ADD_ONION" if cell["eph"] else "SETCONF"
     for code in ((512, 550) if cell["eph"] else (513, 553)):
         f.append(["reject", word, code])
@@ -221,11 +250,13 @@ def base_faults(route, cell):
     return f
 
 
-def line_faults(n_lines):
+def line_faults(n_lines, route=None, ks=None):
     f = []
-    for k in range(1, n_lines + 1):
+    for k in (ks if ks is not None else range(1, n_lines + 1)):
         f.append(["close-on-line", k])
         f.append(["close-after-reply", k])
+        if route in OWN_CONFIG:
+            f.append(["reject-line", k])         # Tor answers 5xx to the k-th line and stays connected
     return f
 
 
@@ -242,7 +273,7 @@ def invalid_cases():
     for name in ("str:key+keyfile", "str:hsdir+key", "str:hsdir+keyfile", "str:singlehop-bogus", "str:version-foo", "str:version-1",
                  "str:version-4", "str:public-port-not-int", "str:local-port-not-int", "str:keyfile-garbage", "str:hsdir+singlehop",
                  "str:unknown-keyword"):
-        for route in ("str-system", "str-global"):
+        for route in ("str-system", "str-system-unix", "str-global", "str-global-unseeded"):
             out.append({"invalid": name, "route": route})
     res = []
     for v in range(3):
@@ -347,6 +378,10 @@ class Obs(object):
         self.state_lines_at_refusal = None
         self.implicit_dir_removed = None
         self.foreign_window_events = 0
+        self.config_bootstrap = None      # ("ok"|"err", value, listen already fired?) of a TorConfig the harness created
+        self.spawned = 0
+        self.rejected_line = None
+        self.started_before_refusal = None
 
 
 def _auth_obj(cell):
@@ -397,7 +432,10 @@ class World(object):
         if nonanon:
             conf.values["HiddenServiceSingleHopMode"] = ["1"]
             conf.values["HiddenServiceNonAnonymousMode"] = ["1"]
-        self.tor = OT.OnionTor(non_anonymous_mode=nonanon, conf=conf)
+        if self.fault == ["config", "auth-fails"]:
+            self.tor = OT.OnionTor(non_anonymous_mode=nonanon, conf=conf, auth_methods=("HASHEDPASSWORD",), password=b"the right one")
+        else:
+            self.tor = OT.OnionTor(non_anonymous_mode=nonanon, conf=conf)
         self.reactor = FakeReactor(first_port=case.get("first_port") or self.cell.get("first_port") or 41000)
         self._wrap_listen()
         self.link = None
@@ -411,6 +449,9 @@ class World(object):
         self.n_replies = 0
         self.ep = None
         self.tmpfiles = []
+        self.real_dir = None
+        self.replies0 = 0
+        self._unstub = None
 
     # -- monitors ---------------------------------------------------------------
     def _wrap_listen(self):
@@ -443,6 +484,9 @@ class World(object):
         if f[0] == "close-on-line" and self.armed_lines == f[1]:
             self.tor.scripted.insert(0, (lambda l: True, "close", True))
             self.obs.lost_by_fault = True
+        if f[0] == "reject-line" and self.armed_lines == f[1]:
+            self.tor.scripted.insert(0, (lambda l: True, (552, [("end", "Unrecognized or refused: %s (%s)" % (w, MARK))]), True))
+            self.obs.rejected_line = line
 
     def _after_reply(self, line, code):
         self.n_replies += 1
@@ -453,6 +497,7 @@ class World(object):
 
     def arm(self):
         self.obs.lines0 = len(self.tor.lines)
+        self.replies0 = len(self.tor.replies)
         self.tor.on_line.append(self._on_line)
         self.tor.after_reply.append(self._after_reply)
         f = self.fault
@@ -500,14 +545,61 @@ class World(object):
             p = tempfile.mkdtemp(prefix="hs", dir=self.root)
         elif d == "missing":
             p = os.path.join(tempfile.mkdtemp(prefix="hsp", dir=self.root), "not-yet")
+        elif d == "symlink":
+            top = tempfile.mkdtemp(prefix="hsl", dir=self.root)
+            self.real_dir = os.path.join(top, "real")
+            os.mkdir(self.real_dir, 0o700)
+            p = os.path.join(top, "link")
+            os.symlink(self.real_dir, p)
         else:
             p = None
         return p
+
+    def preconfigure(self):
+        """Tor's configuration already holds a service for the (real) directory"""
+        if self.cell.get("pre") != "tor-config":
+            return
+        cell = self.cell
+        line = 'SETCONF HiddenServiceDir=%s HiddenServicePort="%d 127.0.0.1:8080" HiddenServiceVersion=%d' % (
+            self.real_dir, cell["public_port"], cell["version"])
+        a = AUTH[cell["auth"]]
+        if a is not None:
+            line += ' HiddenServiceAuthorizeClient="%s %s"' % (a[0], ",".join(a[1]))
+        rep = self.tor.dispatch(line)
+        if rep is None or rep == "close" or rep[0] != 250:
+            self.obs.harness = "could not preconfigure Tor: %r" % (rep,)
+
+    def first_endpoint(self):
+        """an earlier endpoint object created (and stopped) a service for the real directory on the same config"""
+        from twisted.internet import protocol
+        from txtorcon import TCPHiddenServiceEndpoint
+        cell = self.cell
+        ep0 = TCPHiddenServiceEndpoint(self.reactor, self.cfg, cell["public_port"], hidden_service_dir=self.real_dir,
+                                       version=cell["version"], auth=_auth_obj(cell))
+        res = []
+        ep0.listen(protocol.Factory()).addBoth(res.append)
+        self.link.pump()
+        sid = [x.service_id for x in self.tor.fs_services if os.path.realpath(x.directory) == os.path.realpath(self.real_dir)]
+        if sid:
+            self.tor.hs_desc("UPLOAD", sid[0], 0, descid=AO.descriptor_id(sid[0], 0))
+            self.link.pump()
+            self.tor.hs_desc("UPLOADED", sid[0], 0)
+            self.link.pump()
+        if not res or not hasattr(res[0], "stopListening"):
+            self.obs.harness = "first endpoint did not come up: %r" % (res,)
+            return
+        # the first endpoint's listener is closed through the reactor (not through the code under test), so that only the
+        # second endpoint's listeners are judged
+        for lp in self.reactor.open_ports():
+            lp.stopListening()
+        self.reactor.flush()
+        del self.obs.listen_calls[:]
 
     def bootstrapped_config(self):
         from txtorcon import TorConfig
         self.connect_link()
         self.link.pump()
+        self.preconfigure()
         d = TorConfig.from_protocol(self.proto)
         self.link.pump()
         if not d.called or not hasattr(d, "result") or not isinstance(d.result, TorConfig):
@@ -518,6 +610,7 @@ class World(object):
 
     def build(self):
         """prepare the route and construct the endpoint; returns the endpoint or None (obs.construct_exc set)"""
+        import txtorcon
         from twisted.internet import defer
         from txtorcon import TorConfig, TCPHiddenServiceEndpoint
         from txtorcon.controller import Tor
@@ -544,6 +637,10 @@ class World(object):
                     config_arg = self.cfg_deferred = defer.Deferred()
             else:
                 tor_obj = Tor(self.reactor, self.proto, _tor_config=cfg)
+            if cell.get("pre") == "first-endpoint":
+                self.first_endpoint()
+                if self.obs.harness:
+                    return None
             self.arm()
         elif route in ("ctor-lazy", "tor-lazy", "str-global-lazy"):
             self.connect_link()
@@ -551,13 +648,35 @@ class World(object):
             if not self.proto.post_bootstrap.called:
                 self.obs.harness = "protocol bootstrap stalled"
                 return None
+            self.preconfigure()
+            if self.obs.harness:
+                return None
             self.arm()
             if route == "ctor-lazy":
                 config_arg = TorConfig(self.proto)       # bootstrap commands queued, nothing pumped yet
+                self.tap_config(config_arg)
             else:
                 tor_obj = Tor(self.reactor, self.proto, _tor_config=None)
+        elif route == "ctor-raw":
+            # the control protocol is not connected yet; it connects, authenticates and bootstraps after listen() was called
+            pw = (lambda: "not the right one") if self.fault == ["config", "auth-fails"] else None
+            self.proto = txtorcon.TorControlProtocol(pw)
+            if cell.get("pre"):
+                self.tor.authenticated = True
+                self.preconfigure()
+                self.tor.authenticated = False
+                if self.obs.harness:
+                    return None
+            self.arm()
+            config_arg = TorConfig(self.proto)
+            self.tap_config(config_arg)
         else:
             self.arm()                                   # str-system*: the connection is made by txtorcon.connect
+            if route == "str-global-unseeded":
+                # no global Tor exists: global_tor() launches one; only the lookup of the binary is stubbed
+                import txtorcon.controller as TC
+                self._unstub = (TC, TC.find_tor_binary)
+                TC.find_tor_binary = lambda *a, **kw: "/nonexistent/bin/tor"
         if route in ("str-global", "str-global-lazy"):
             from txtorcon import endpoints as EP
             d = EP.get_global_tor_instance(self.reactor, _tor_launcher=lambda r, progress_updates=None: defer.succeed(tor_obj))
@@ -576,9 +695,30 @@ class World(object):
         except Exception as e:          # noqa: whatever the constructor raises is an observation
             self.obs.construct_exc = e
             ep = None
+        finally:
+            if getattr(self, "_unstub", None):
+                setattr(self._unstub[0], "find_tor_binary", self._unstub[1])
+                self._unstub = None
         self.obs.connect_attempts = len(self.reactor.connections)
+        self.obs.spawned = len(self.reactor.processes)
+        if ep is None:
+            self.obs.started_before_refusal = {
+                "connects": [(a.kind, a.host, a.port) for a in self.reactor.connections],
+                "spawned": [os.path.basename(str(p.executable)) for p in self.reactor.processes],
+                "listen_calls": [(c["interface"], c["port"]) for c in self.obs.listen_calls]}
         self.ep = ep
         return ep
+
+    def tap_config(self, cfg):
+        """record how the bootstrap of a TorConfig made by the harness ends; the result is passed on untouched"""
+        from twisted.python import failure
+
+        def tap(res):
+            o = self.obs.outcome
+            bad = isinstance(res, failure.Failure)       # (a TorConfig raises KeyError from hasattr(): no duck typing here)
+            self.obs.config_bootstrap = ("err" if bad else "ok", res.value if bad else None, bool(o is not None and o.fired))
+            return res
+        cfg.post_bootstrap.addBoth(tap)
 
     def _build_ctor(self, cls, config_arg, hsdir):
         cell = self.cell
@@ -747,6 +887,8 @@ class World(object):
                 self.cfg_deferred.errback(InjectedConfigError("config unavailable (%s)" % MARK))
             else:
                 self.cfg_deferred.callback(self.cfg)
+        elif route == "ctor-raw":
+            self.link = Link(self.proto, self.tor, self.case.get("chunking") or (1 << 30,)).connect()
         elif route in ("str-system", "str-system-unix"):
             pend = self.reactor.pending_connections()
             if len(pend) != 1:
@@ -971,7 +1113,7 @@ def _state_lines(lines):
 
 def _create_acked(w):
     """did Tor answer 250 to a creating command of this endpoint (and was the answer handed to the link)?"""
-    for (line, code, parts) in w.tor.replies:
+    for (line, code, parts) in w.tor.replies[w.replies0:]:
         word = line.partition(" ")[0].upper()
         if code == 250 and (word == "ADD_ONION" or (word in ("SETCONF", "RESETCONF") and "hiddenservicedir" in line.lower())):
             return True
@@ -981,7 +1123,7 @@ def _create_acked(w):
 def _create_reply(w):
     """status code Tor gave to the (last) creating command, None if it never answered one"""
     code = None
-    for (line, c, parts) in w.tor.replies:
+    for (line, c, parts) in w.tor.replies[w.replies0:]:
         word = line.partition(" ")[0].upper()
         if word == "ADD_ONION" or (word in ("SETCONF", "RESETCONF") and "hiddenservicedir" in line.lower()):
             code = c
@@ -1002,6 +1144,8 @@ def failing_step(w):
         return "config"
     if f[0] == "bind":
         return "bind"
+    if config_bootstrap_failed(w):
+        return "config-bootstrap"
     code = _create_reply(w)
     acked = code == 250
     if f[0] == "uploads-failed":
@@ -1014,9 +1158,19 @@ def failing_step(w):
         return "disconnect-while-creating"
     if code is not None and code >= 400:
         return "create-rejected"
+    if f[0] == "reject-line":
+        return "command-rejected-after-creation" if acked else "command-rejected-before-creation"
+    if w.cell.get("pre"):
+        return "directory-already-configured"
     if not obs.create_seen:
         return "create-refused-by-client"
     return "other"
+
+
+def config_bootstrap_failed(w):
+    """the TorConfig the harness handed to the constructor failed to bootstrap before listen() fired"""
+    cb = w.obs.config_bootstrap
+    return bool(cb is not None and cb[0] == "err" and not cb[2])
 
 
 def _norm_target(public, target):
@@ -1067,6 +1221,11 @@ def error_matches(w, exc):
     from twisted.internet import error
     f = w.fault
     text = "%s %s" % (type(exc).__name__, exc)
+    if w.cell.get("pre"):
+        return True             # directory already configured: whatever error
+    if config_bootstrap_failed(w):
+        want = w.obs.config_bootstrap[1]
+        return exc is want or (type(exc) is type(want) and str(exc) == str(want)) or bool(str(want) and str(want) in str(exc))
     if f[0] == "config":
         if f[1] == "connection-refused":
             return isinstance(exc, error.ConnectError) or MARK in text
@@ -1122,8 +1281,17 @@ def judge(w, rec, case):
             rec.count("refused_by_constructor")
         elif refused:
             rec.count("refused_by_listen")
-        if obs.connect_attempts and obs.construct_exc is not None:
-            rec.count("control_connection_attempted_before_refusal")
+        sb = obs.started_before_refusal
+        launched = False
+        if sb is not None:
+            rec.count("reactor_watched_for_starts_before_refusal")
+            if sb["connects"] or sb["spawned"]:
+                # a control connection was opened / a Tor launched (its control-port probe is the listenTCP call, if any)
+                launched = True
+                V("invalid-combination-refused-after-connect-or-launch", cls, {"started": sb, "exc": "%s: %s" % (
+                    type(obs.construct_exc).__name__, obs.construct_exc)})
+        if launched:
+            return bad, True
         if not refused:
             V("invalid-combination-not-refused", cls, {"listen_calls": len(obs.listen_calls)})
         elif started:
@@ -1145,7 +1313,7 @@ def judge(w, rec, case):
 
     # ---- the mapping sent to Tor names the port that was bound -----------------------------------
     bound = [c["lp"] for c in obs.listen_calls if c["ok"]]
-    for cs in obs.create_seen:
+    for cs in ([] if cell.get("pre") else obs.create_seen):
         m = mapping_of(w, cs["line"])
         if m is None:
             rec.count("creating_command_undecodable")
@@ -1163,7 +1331,10 @@ def judge(w, rec, case):
     may_refuse = cell.get("version") == 4 and cell.get("eph", True) or cell.get("key") == "wrong-type"
     client_refusal = bool(may_refuse and not obs.create_seen and o.fired and not o.ok)
     fault_injected = f[0] != "none"
-    natural_failure = (code is not None and code >= 400) or client_refusal
+    # a service for the same directory is already in the config: whatever listen() does, it may not leak or hang
+    pre = bool(cell.get("pre"))
+    natural_failure = (code is not None and code >= 400) or client_refusal or (pre and o.fired and not o.ok) \
+        or (config_bootstrap_failed(w) and not (o.fired and o.ok))
 
     # ---- listen() did not fire early -----------------------------------------------------------------
     hold = f[:2] == ["none", "hold"]
@@ -1174,7 +1345,9 @@ def judge(w, rec, case):
         rec.count("foreign_window_events_delivered", obs.foreign_window_events)
     # reply withheld: the service exists once the reply is out and an own UPLOADED may already have been counted
     legit = "released" if hold else "uploaded:0"
-    for (name, fired, acked) in obs.steps:
+    if pre:
+        rec.count("preconfigured_directory_runs")
+    for (name, fired, acked) in ([] if pre else obs.steps):
         if name == legit or name in ("stopped", "quiesce-0", "quiesce-1"):
             break
         rec.count("not_fired_checks")
@@ -1187,7 +1360,7 @@ def judge(w, rec, case):
             V("failed-on-foreign-descriptor-events", kind + "+foreign-" + f[2] + "-before-creation-reply",
               {"at_step": name, "got": "%s: %s" % (type(o.value).__name__, o.value)})
             return bad, True
-    if o.fired and o.ok and obs.at_fire is not None:
+    if o.fired and o.ok and obs.at_fire is not None and not pre:
         if not obs.at_fire["create_acked"] or obs.at_fire["held"]:
             V("fired-before-service-exists", tcls, {"at_fire": obs.at_fire})
         elif not obs.at_fire["own_uploaded_sent"] and not hold:
@@ -1202,14 +1375,19 @@ def judge(w, rec, case):
             V("listen-succeeded-despite-failure", failing_step(w) + "+" + kind, {"host": obs.host})
         if natural_failure:
             V("listen-succeeded-despite-failure", failing_step(w) + "+" + kind, {"host": obs.host, "tor_code": code})
+        if config_bootstrap_failed(w):
+            V("listen-succeeded-despite-failure", "config-bootstrap+" + kind,
+              {"config_error": "%s: %s" % (type(obs.config_bootstrap[1]).__name__, obs.config_bootstrap[1]), "rejected_line": obs.rejected_line})
         rec.count("gethost_compared")
         uri, hport = obs.host
-        if obs.expected_host_judged:
+        if pre:
+            rec.count("preconfigured_directory_success_judged_on_stop_only")
+        elif obs.expected_host_judged:
             if uri != obs.expected_host:
                 V("gethost-hostname-mismatch", kind + ("+auth" if cell["auth"] != "none" else ""), {"got": uri, "tor_assigned": obs.expected_host})
         else:
             rec.count("hostname_not_judged_multi_client_stealth")
-        if hport != cell["public_port"]:
+        if hport != cell["public_port"] and not pre:
             V("gethost-port-mismatch", kind, {"got": hport, "public_port": cell["public_port"], "bound": [lp.port for lp in bound]})
         # ---- IListeningPort history: every stopListening() closes the local listener ------------------------------
         mapped = None
@@ -1275,8 +1453,14 @@ def judge(w, rec, case):
         V("listen-pending-after-failure", cls, {"lost": bool(w.link is not None and w.link.lost), "open": obs.open_at_end})
         return bad, True
     rec.count("failure_errors_compared")
+    if config_bootstrap_failed(w):
+        rec.count("config_bootstrap_failures_compared")
     if not error_matches(w, o.value):
-        V("listen-failed-with-another-error", cls, {"got": "%s: %s" % (type(o.value).__name__, o.value)})
+        det = {"got": "%s: %s" % (type(o.value).__name__, o.value)}
+        if config_bootstrap_failed(w):
+            det["config_error"] = "%s: %s" % (type(obs.config_bootstrap[1]).__name__, obs.config_bootstrap[1])
+            det["rejected_line"] = obs.rejected_line
+        V("listen-failed-with-another-error", cls, det)
     if obs.open_at_end:
         V("listener-left-open-after-failure", cls, {"open": obs.open_at_end, "listen": o.describe()})
     return bad, True
@@ -1311,10 +1495,12 @@ def _cell_sig(case):
 # ---------------------------------------------------------------------------
 # shards
 
-def cell_route_pairs():
+def cell_route_pairs(raw_every=1):
     out = []
-    for cell in all_cells():
+    for ci, cell in enumerate(all_cells()):
         for route in ROUTES:
+            if route == "ctor-raw" and ci % raw_every:
+                continue
             if supports(route, cell):
                 out.append((cell, route))
     return out
@@ -1333,7 +1519,7 @@ def random_case(rnd):
     cell["ndirs"] = rnd.randint(1, 4)
     cell["noise"] = rnd.random() < 0.5
     cell["history"] = rnd.randrange(len(PORT_HISTORIES))
-    faults = base_faults(route, cell) + line_faults(rnd.randint(2, 30 if route in LAZY else 4))
+    faults = base_faults(route, cell) + line_faults(rnd.randint(2, 30 if route in LAZY else 4), route)
     case = {"cell": cell, "route": route, "fault": rnd.choice(faults)}
     if rnd.random() < 0.6:
         case["chunking"] = gen.chunking(rnd)
@@ -1349,7 +1535,7 @@ def run_shard(spec, rec):
         mode = spec["mode"]
         if mode == "enumerate":
             k, n = spec["part"], spec["parts"]
-            pairs = cell_route_pairs()
+            pairs = cell_route_pairs(spec.get("raw_every", 1))
             routes = spec.get("routes")
             total = 0
             for i, (cell, route) in enumerate(pairs):
@@ -1367,9 +1553,9 @@ def run_shard(spec, rec):
                     if spec.get("max_lines") and route in LAZY:
                         # quick tier: every line of the short dialogues, a stride through the long (bootstrap) ones
                         ks = sorted(set(range(1, nl + 1)[::spec.get("stride", 1)]) | set(range(max(1, nl - 5), nl + 1)))
-                        faults += [x for kk in ks for x in (["close-on-line", kk], ["close-after-reply", kk])]
+                        faults += line_faults(nl, route, ks)
                     else:
-                        faults += line_faults(nl)
+                        faults += line_faults(nl, route)
                     rec.count("dialogue_lines_enumerated", nl)
                 else:
                     rec.count("baseline_did_not_succeed")
@@ -1415,7 +1601,7 @@ def plan(tier, seed):
     name = "configuration cells x routes x fault points (every command line of the dialogue as a disconnect point)"
     if tier == "quick":
         for i in range(13):
-            specs.append({"mode": "enumerate", "part": i, "parts": 13, "max_lines": True, "stride": 5, "name": name})
+            specs.append({"mode": "enumerate", "part": i, "parts": 13, "max_lines": True, "stride": 5, "raw_every": 3, "name": name})
         specs.append({"mode": "invalid", "name": "invalid option combinations declared by __init__ / parseStreamServer x routes"})
         for i in range(2):
             specs.append({"mode": "random", "n": 300})
